@@ -1324,3 +1324,73 @@ def delegate_target(prog, f, depth=3):
             return cur
         cur = cands[0]
     return cur
+
+
+# ----------------------------------------------------------------------------- linear canonical form of integer comparisons
+
+_ADD = ("Add", "AddWithOverflow", "AddUnchecked")
+_SUB = ("Sub", "SubWithOverflow", "SubUnchecked")
+_MUL = ("Mul", "MulWithOverflow", "MulUnchecked")
+
+
+def linear_form(sym, depth=8):
+    """sym as a linear combination of atoms: ({atom_text: coef}, const, flags) or None. Integer casts, `.0` of checked arithmetic,
+    saturating_/wrapping_ add and sub are read as plain +/- (flag 'saturating' / 'wrapping' is reported)."""
+    flags = set()
+
+    def go(s, d):
+        s = strip(s)
+        if d <= 0:
+            return ({fmt_sym(s, maxdepth=10): 1}, 0)
+        if s[0] == "field" and s[2] == "0" and strip(s[1])[0] == "bin" and strip(s[1])[1].endswith("WithOverflow"):
+            s = strip(s[1])
+        if s[0] == "const" and isinstance(s[2], int) and not isinstance(s[2], bool):
+            return ({}, s[2])
+        if s[0] == "cast":
+            return go(s[1] if isinstance(s[1], tuple) else s[-1], d)
+        if s[0] == "un" and s[1] == "Neg":
+            r = go(s[2], d - 1)
+            return ({k: -v for k, v in r[0].items()}, -r[1])
+        if s[0] == "bin" and s[1] in _ADD + _SUB:
+            a, b = go(s[2], d - 1), go(s[3], d - 1)
+            sg = 1 if s[1] in _ADD else -1
+            co = dict(a[0])
+            for k, v in b[0].items():
+                co[k] = co.get(k, 0) + sg * v
+            return ({k: v for k, v in co.items() if v != 0}, a[1] + sg * b[1])
+        if s[0] == "bin" and s[1] in _MUL:
+            a, b = go(s[2], d - 1), go(s[3], d - 1)
+            if not a[0]:
+                return ({k: v * a[1] for k, v in b[0].items()}, a[1] * b[1])
+            if not b[0]:
+                return ({k: v * b[1] for k, v in a[0].items()}, a[1] * b[1])
+        if s[0] == "call" and len(s[2]) == 2 and s[1].rsplit("::", 1)[-1] in ("saturating_sub", "wrapping_sub", "saturating_add", "wrapping_add", "checked_sub", "checked_add"):
+            nm = s[1].rsplit("::", 1)[-1]
+            flags.add(nm.split("_")[0])
+            a, b = go(s[2][0], d - 1), go(s[2][1], d - 1)
+            sg = 1 if nm.endswith("add") else -1
+            co = dict(a[0])
+            for k, v in b[0].items():
+                co[k] = co.get(k, 0) + sg * v
+            return ({k: v for k, v in co.items() if v != 0}, a[1] + sg * b[1])
+        return ({fmt_sym(s, maxdepth=10): 1}, 0)
+    r = go(sym, depth)
+    return (r[0], r[1], flags)
+
+
+def canon_linear_cmp(sym):
+    """A comparison as `expr REL 0` with REL in '>', '>=', '==', '!=' and expr = sum coef*atom + const:
+    returns (REL, {atom: coef}, const, flags) or None. `a < b` and `b - a > 0` and `a + 1 <= b` (for integers: const folded
+    by the caller) get the same coefficients."""
+    cc = canon_cmp(sym)
+    if cc is None:
+        return None
+    rel, a, b = cc
+    la, lb = linear_form(a), linear_form(b)
+    co = dict(lb[0])
+    for k, v in la[0].items():
+        co[k] = co.get(k, 0) - v
+    co = {k: v for k, v in co.items() if v != 0}
+    const = lb[1] - la[1]
+    out_rel = {"<": ">", "<=": ">=", "==": "==", "!=": "!="}[rel]
+    return (out_rel, co, const, la[2] | lb[2])
